@@ -8,13 +8,16 @@ ROOT = os.path.dirname(os.path.dirname(os.path.abspath(__file__)))
 OUT = '/tmp/proofside'
 os.makedirs(OUT, exist_ok=True)
 seeds = sys.argv[1:] or sorted(os.listdir(os.path.join(ROOT, 'seeded')))
+# an argument that is a path to a .diff file is taken as a patch of its own (id = file name)
+PATCH = {os.path.basename(a)[:-5]: a for a in seeds if a.endswith('.diff')}
+seeds = [os.path.basename(a)[:-5] if a.endswith('.diff') else a for a in seeds]
 
 def one(sid):
     d = os.path.join(OUT, sid)
     shutil.rmtree(d, ignore_errors=True)
     os.makedirs(d + '/chiritori')
     shutil.copytree('/repo/chiritori/src', d + '/chiritori/src')
-    r = subprocess.run(['patch', '-p1', '-s', '-i', os.path.join(ROOT, 'seeded', sid, 'patch.diff')], cwd=d, capture_output=True, text=True)
+    r = subprocess.run(['patch', '-p1', '-s', '-i', PATCH.get(sid, os.path.join(ROOT, 'seeded', sid, 'patch.diff'))], cwd=d, capture_output=True, text=True)
     if r.returncode:
         return sid, {'error': 'patch failed: ' + r.stdout + r.stderr}
     env = dict(os.environ, CHIRITORI_SRC=d + '/chiritori/src', VERIF_OUT_DIR=d + '/out', VERIF_NO_WITNESS='1')
@@ -25,6 +28,9 @@ def one(sid):
         m = re.match(r'(VIOLATION) property=(C\d+).*?(obligation=\S+ \([^)]*\)|failing input)', line)
         if m:
             res.setdefault(m.group(2), []).append(m.group(3))
+        m = re.match(r'OK property=(C\d+)', line)
+        if m:
+            res.setdefault(m.group(1), []).append('OK')
         m = re.match(r'UNDECIDED (C\d+) \[(\w+)\] (.*)', line)
         if m:
             res.setdefault(m.group(1), []).append('UNDECIDED[' + m.group(2) + '] ' + m.group(3)[:140])
@@ -37,6 +43,6 @@ json.dump(allr, open(os.path.join(OUT, 'summary.json'), 'w'), indent=1)
 for sid in seeds:
     r = allr[sid]
     target = sid.split('-')[0]
-    viol = sorted(k for k, v in r.items() if k != 'error' and any(not x.startswith('UNDECIDED') for x in v))
-    und = sorted(k for k, v in r.items() if k != 'error' and all(x.startswith('UNDECIDED') for x in v))
+    viol = sorted(k for k, v in r.items() if k != 'error' and any(not x.startswith('UNDECIDED') and x != 'OK' for x in v))
+    und = sorted(k for k, v in r.items() if k != 'error' and k not in viol and any(x.startswith('UNDECIDED') for x in v))
     print(sid, 'VIOL:', ' '.join(viol) or '-', '| UNDECIDED:', ' '.join(und) or '-', '|', r.get('error', ''))
